@@ -86,6 +86,7 @@ def make_threading(kernel):
     m.current_thread = current_thread
     m.main_thread = lambda: main_facade
     m.get_ident = lambda: 1000 + kernel.current.idx
+    m.TIMEOUT_MAX = K.TIMEOUT_MAX
     return m
 
 
